@@ -145,43 +145,71 @@ func (in *Interp) jsonEncode(t types.Type, v Value, escapeHTML *Term) []*Term {
 		return text
 	}
 	sv := v.(Struct)
-	out := strTerms("{")
-	first := true
+	// pass 1: the field list as encoding/json builds it (names, options; fields sharing a name at this level are
+	// all dropped unless exactly one of them carries the name in its tag)
+	type jf struct {
+		idx       int
+		name      string
+		tagged    bool
+		omitEmpty bool
+	}
+	var fields []jf
 	for i := 0; i < st.NumFields(); i++ {
 		f := st.Field(i)
-		if !f.Exported() || f.Embedded() {
-			if f.Embedded() {
-				in.fail("encoding/json model: embedded field %s", f.Name())
-			}
+		if f.Embedded() {
+			in.fail("encoding/json model: embedded field %s", f.Name())
+		}
+		if !f.Exported() {
 			continue
 		}
-		name, omitEmpty := f.Name(), false
+		e := jf{idx: i, name: f.Name()}
 		if tag, ok := reflect.StructTag(st.Tag(i)).Lookup("json"); ok {
 			parts := strings.Split(tag, ",")
 			if parts[0] == "-" && len(parts) == 1 {
 				continue
 			}
 			if parts[0] != "" {
-				name = parts[0]
+				e.name, e.tagged = parts[0], true
 			}
 			for _, o := range parts[1:] {
 				switch o {
 				case "omitempty":
-					omitEmpty = true
+					e.omitEmpty = true
 				case "string":
 					in.fail("encoding/json model: ,string option on %s", f.Name())
 				}
 			}
 		}
-		text, empty := in.jsonValue(f.Type(), sv[i], escapeHTML)
-		if omitEmpty && in.ctx.Branch(empty) {
+		fields = append(fields, e)
+	}
+	keep := make([]bool, len(fields))
+	for i, e := range fields {
+		same, taggedSame := 0, 0
+		for _, o := range fields {
+			if o.name == e.name {
+				same++
+				if o.tagged {
+					taggedSame++
+				}
+			}
+		}
+		keep[i] = same == 1 || (e.tagged && taggedSame == 1)
+	}
+	out := strTerms("{")
+	first := true
+	for i, e := range fields {
+		if !keep[i] {
+			continue
+		}
+		text, empty := in.jsonValue(st.Field(e.idx).Type(), sv[e.idx], escapeHTML)
+		if e.omitEmpty && in.ctx.Branch(empty) {
 			continue
 		}
 		if !first {
 			out = append(out, strTerms(",")...)
 		}
 		first = false
-		out = append(out, strTerms(`"`+name+`":`)...)
+		out = append(out, strTerms(`"`+e.name+`":`)...)
 		out = append(out, text...)
 	}
 	return append(out, strTerms("}")...)
